@@ -1,8 +1,10 @@
 #!/bin/bash
 # usage: tools/eval_table.sh <seed_table.json> [id-regex]  -> one eval_seed2 line per (seed, check listed under "det")
+# FIRST_ONLY=1: only the first listed check of each seed (regression run)
 t=$1; re=${2:-.}
 /venv/bin/python - "$t" <<'PY' | grep -E "$re" | while read id checks; do /verif/tools/eval_seed2.sh /verif/seeded/$id $checks; done
-import json, sys
+import json, os, sys
 for k, e in sorted(json.load(open(sys.argv[1])).items()):
-    print(k, " ".join(e["det"].split(",")))
+    cs = e["det"].split(",")
+    print(k, " ".join(cs[:1] if os.environ.get("FIRST_ONLY") else cs))
 PY
